@@ -196,6 +196,23 @@ CHECKS.update({
         design="DESIGN.md §3 C17"),
 })
 
+CHECKS.update({
+    "C02": dict(
+        technique="TLA+ model of the model graph as path -> element (FimSliverConv) with the settable vocabulary PINNED per sliver "
+                  "class; Write/Rebuild/dict/JSON round trips and set/unset/get as total functions; laws by TLC; TLC-generated "
+                  "family (containment shapes x every single property on every element + all-at-once assignments) executed on "
+                  "the real conversion code and model-element API, judged by Trace_FimSliverConv",
+        text="Every sliver of the family (node/component/service/interface/sub-interface/link shapes; each settable property "
+             "alone on each element, all properties at once with two distinct concrete values per property) is written with "
+             "add_*_sliver and rebuilt from EVERY nested element, and converted through sliver_to_dict / JSONSliver and back; "
+             "then every set_property / set_properties / unset_property / set_property(None) / get_property on every element "
+             "x property of populated graphs; after each call the complete decoded graph must equal the model (frame included), "
+             "the converted original must be untouched, and the live setter vocabulary must equal the pinned table.",
+        note="Two concrete values per property (each (property, value) distinct so misfiled values show); name/type are "
+             "structural and never unset; three recorded deviations (image pair, stitch_node reset, unmapped unset).",
+        design="DESIGN.md §3 C02"),
+})
+
 PENDING = {}
 
 
